@@ -9,44 +9,47 @@ sequence of calls and clock advances from a fresh interceptor.  All statements q
 threshold, cool-down, allow list, block list, DNS table (`cfg.wf`: DNS answers are dotted quads),
 start instant and every finite input sequence.
 
-The unchanged code violates the clause "a decision that itself never raises" (finding F19a), so the
-full connection theorem is proved in `_partial` form (`c19_holds_partial`, excluded class
-`decisionRaises`) next to `c19_holds_violation_witness`, and unconditionally in the form
-"holds up to events of class F19a" (`c19_holds_modulo_F19a`).
+The model describes the code after `fix:` F19a (`_is_external` catches the `ValueError` family and
+answers "not external"): the decision is a total function, and the connection theorem `c19_holds`
+is unconditional.
 -/
 namespace LunarVerif.C19
 
 /-! ## Connection: the judge predicate is true of every model run -/
 
-/-- Every run satisfies the Spec on every event, except that events of class F19a (the decision
-    raised into the application) are tolerated.  This is the predicate the judge evaluates. -/
-theorem c19_holds_modulo_F19a (cfg : Cfg) (hw : cfg.wf = true) (t0 : Nat) (is : List Input) :
-    holdsModulo cfg (run cfg (St.init t0) is) = true :=
-  run_holdsModulo cfg hw is (St.init t0) Ref.init (rel_init cfg t0)
-
-/-- Full property, with the class of F19a excluded by an explicit decidable hypothesis: if no call
-    goes to a destination on which the decision raises, the Spec holds of the whole run. -/
-theorem c19_holds_partial (cfg : Cfg) (hw : cfg.wf = true) (t0 : Nat) (is : List Input)
-    (hno : ∀ c, Input.call c ∈ is → decisionRaises cfg c.host c.hdr = false) :
+/-- Full property: the Spec predicate the judge evaluates holds of every run. -/
+theorem c19_holds (cfg : Cfg) (hw : cfg.wf = true) (t0 : Nat) (is : List Input) :
     holds cfg (run cfg (St.init t0) is) = true :=
-  run_holds_partial cfg hw is hno (St.init t0) Ref.init (rel_init cfg t0)
+  run_holds cfg hw is (St.init t0) Ref.init (rel_init cfg t0)
 
-/-- The full statement (without the exclusion) is false of the code as it is: one call to the
-    IPv6 loopback literal `::1`. -/
-theorem c19_holds_violation_witness :
-    ∃ (cfg : Cfg) (t0 : Nat) (is : List Input), cfg.wf = true ∧
-      ¬ holds cfg (run cfg (St.init t0) is) = true :=
-  ⟨⟨2, 1, none, none, []⟩, 0, [.call ⟨[':', ':', '1'], .absent, .ok, .ok⟩], by decide, by decide⟩
+/-- The routing decision never raises into the application: whatever the state, the destination,
+    the header, the lists and the DNS answer (including `UnicodeError`), every intercepted call
+    contacts the gateway or the provider, and what the application gets is the answer or the
+    exception of a leg that was contacted (the result type has no other inhabitant). -/
+theorem decision_total (cfg : Cfg) (s : St) (c : CallIn) :
+    (call cfg s c).2.sent ≠ [] ∧
+    ((call cfg s c).2.sent.contains .gw = true ∨ (call cfg s c).2.sent.contains .direct = true) := by
+  have h := call_sent_ne_nil cfg s c
+  refine ⟨h, ?_⟩
+  cases hs : (call cfg s c).2.sent with
+  | nil => exact absurd hs h
+  | cons t ts => cases t <;> simp
 
-/-- F19a, both forms: `::1` raises `AddressValueError`; a name for which `gethostbyname` raises
-    `UnicodeError` (a label longer than 63 characters, an empty label) raises it into the
-    application.  No leg is contacted in either case. -/
-theorem decision_raises_witness :
-    (call ⟨2, 1, none, none, []⟩ (St.init 0) ⟨[':', ':', '1'], .absent, .ok, .ok⟩).2
-        = ⟨[], .raiseDec .addressValue⟩ ∧
-    (call ⟨2, 1, none, none, [(['a', '.', '.', 'b'], .unicodeErr)]⟩ (St.init 0)
-        ⟨['a', '.', '.', 'b'], .absent, .ok, .ok⟩).2 = ⟨[], .raiseDec .unicode⟩ := by
-  constructor <;> decide
+/-- The destinations on which the unrepaired code raised — an IPv6 literal, a name whose
+    resolution raises `UnicodeError` — are sent directly to the provider (unless a header or an
+    allow list routes them), from a fresh interceptor with the breaker closed. -/
+theorem unclassifiable_sent_directly (cfg : Cfg) (hw : cfg.wf = true) (t0 : Nat) (is : List Input)
+    (o : Obs) (ho : o ∈ run cfg (St.init t0) is)
+    (hh : hdrOverride o.inp.hdr = none) (ha : allowEntries cfg = none)
+    (hx : ((parseIPv4 o.inp.host).isNone && isIPv6 o.inp.host
+            || (!validateIp o.inp.host && cfg.resolve o.inp.host == .unicodeErr)) = true) :
+    o.out.sent = [.direct] ∧ o.out.result = directResult o.inp := by
+  obtain ⟨r, hr⟩ := holdsFrom_mem cfg _ _ (c19_holds cfg hw t0 is) o ho
+  have hroute : shouldRoute cfg o.inp.host o.inp.hdr = false := by
+    simp [shouldRoute, hh, ha, unclassifiable_not_external cfg _ hx]
+  simp only [eventOk, filterRespected, hroute, Bool.and_eq_true, Bool.or_false,
+    Bool.not_eq_true'] at hr
+  exact noSwallow_direct_only o hr.1.1.1 hr.1.2
 
 /-! ## The breaker -/
 
@@ -61,24 +64,20 @@ theorem bypass_during_cooldown (cfg : Cfg) (hw : cfg.wf = true) (t0 : Nat) (is :
     (hmid : ∀ x ∈ mid, x.t < f.t + cfg.coolTicks)
     (hin : o.t < f.t + cfg.coolTicks) :
     o.out.sent = [.direct] ∧ o.out.result = directResult o.inp := by
-  have h := c19_holds_modulo_F19a cfg hw t0 is
-  rw [holdsModulo, hrun, holdsModuloFrom_append cfg pre, holdsModuloFrom_append cfg (init ++ [f]),
-    holdsModuloFrom_append cfg mid] at h
+  have h := c19_holds cfg hw t0 is
+  rw [holds, hrun, holdsFrom_append cfg pre, holdsFrom_append cfg (init ++ [f]),
+    holdsFrom_append cfg mid] at h
   simp only [Bool.and_eq_true] at h
   obtain ⟨_, _, hmidok, hrest⟩ := h
   have htrip := trip_after_fails cfg (pre.foldl (Ref.next cfg) Ref.init) init f hfail hlen
   have hstab := trip_stable cfg f.t mid _ htrip hmidok hmid
-  have hev := holdsModuloFrom_head cfg _ o post hrest
+  have hev := holdsFrom_head cfg _ o post hrest
   have hopen : Ref.isOpen cfg (mid.foldl (Ref.next cfg)
       ((init ++ [f]).foldl (Ref.next cfg) (pre.foldl (Ref.next cfg) Ref.init))) o.t = true := by
     simp only [Ref.isOpen, hstab, decide_eq_true_eq]; exact hin
-  simp only [Bool.or_eq_true] at hev
-  rcases hev with hev | hev
-  · simp only [eventOk, cooldownRespected, hopen, Bool.and_eq_true, Bool.not_true, Bool.false_or,
-      Bool.not_eq_true'] at hev
-    exact noSwallow_direct_only o hev.1.1.1 hev.1.1.2
-  · simp only [excused, hopen, Bool.not_true, Bool.false_and] at hev
-    exact absurd hev (by simp)
+  simp only [eventOk, cooldownRespected, hopen, Bool.and_eq_true, Bool.not_true, Bool.false_or,
+    Bool.not_eq_true'] at hev
+  exact noSwallow_direct_only o hev.1.1.1 hev.1.1.2
 
 /-- `n` consecutive gateway-side failures of routed calls, with nothing between them, and the next
     call (inside the cool-down) is sent directly. -/
@@ -103,25 +102,19 @@ theorem retries_after_cooldown (cfg : Cfg) (hw : cfg.wf = true) (t0 : Nat) (is :
     (hout : f.t + cfg.coolTicks ≤ o.t)
     (hroute : shouldRoute cfg o.inp.host o.inp.hdr = true) :
     gwTried o = true := by
-  have h := c19_holds_modulo_F19a cfg hw t0 is
-  rw [holdsModulo, hrun, holdsModuloFrom_append cfg pre, holdsModuloFrom_append cfg (init ++ [f]),
-    holdsModuloFrom_append cfg mid] at h
+  have h := c19_holds cfg hw t0 is
+  rw [holds, hrun, holdsFrom_append cfg pre, holdsFrom_append cfg (init ++ [f]),
+    holdsFrom_append cfg mid] at h
   simp only [Bool.and_eq_true] at h
   obtain ⟨_, _, hmidok, hrest⟩ := h
   have htrip := trip_after_fails cfg (pre.foldl (Ref.next cfg) Ref.init) init f hfail hlen
   have hstab := trip_stable cfg f.t mid _ htrip hmidok hmid
-  have hev := holdsModuloFrom_head cfg _ o post hrest
+  have hev := holdsFrom_head cfg _ o post hrest
   have hclosed : Ref.isOpen cfg (mid.foldl (Ref.next cfg)
       ((init ++ [f]).foldl (Ref.next cfg) (pre.foldl (Ref.next cfg) Ref.init))) o.t = false := by
     simp only [Ref.isOpen, hstab, decide_eq_false_iff_not]; omega
-  simp only [Bool.or_eq_true] at hev
-  rcases hev with hev | hev
-  · simp only [eventOk, recovers, hclosed, hroute, Bool.and_eq_true, Bool.not_true, Bool.false_or] at hev
-    exact hev.2
-  · have hd : decisionRaises cfg o.inp.host o.inp.hdr = true := by
-      simp only [excused, Bool.and_eq_true] at hev; exact hev.1.1.2
-    rw [decisionRaises_not_route cfg _ _ hd] at hroute
-    exact absurd hroute (by simp)
+  simp only [eventOk, recovers, hclosed, hroute, Bool.and_eq_true, Bool.not_true, Bool.false_or] at hev
+  exact hev.2
 
 /-- In general: whenever the reference breaker computed from the observed history is closed, a
     destination the gateway should see is tried through the gateway. -/
@@ -131,26 +124,19 @@ theorem routed_when_closed (cfg : Cfg) (hw : cfg.wf = true) (t0 : Nat) (is : Lis
     (hclosed : (refAfter cfg pre).isOpen cfg o.t = false)
     (hroute : shouldRoute cfg o.inp.host o.inp.hdr = true) :
     gwTried o = true := by
-  have h := c19_holds_modulo_F19a cfg hw t0 is
-  rw [holdsModulo, hrun, holdsModuloFrom_append] at h
+  have h := c19_holds cfg hw t0 is
+  rw [holds, hrun, holdsFrom_append] at h
   simp only [Bool.and_eq_true] at h
-  have hev := holdsModuloFrom_head cfg _ o post h.2
+  have hev := holdsFrom_head cfg _ o post h.2
   unfold refAfter at hclosed
-  simp only [Bool.or_eq_true] at hev
-  rcases hev with hev | hev
-  · simp only [eventOk, recovers, hclosed, hroute, Bool.and_eq_true, Bool.not_true, Bool.false_or] at hev
-    exact hev.2
-  · have hd : decisionRaises cfg o.inp.host o.inp.hdr = true := by
-      simp only [excused, Bool.and_eq_true] at hev; exact hev.1.1.2
-    rw [decisionRaises_not_route cfg _ _ hd] at hroute
-    exact absurd hroute (by simp)
+  simp only [eventOk, recovers, hclosed, hroute, Bool.and_eq_true, Bool.not_true, Bool.false_or] at hev
+  exact hev.2
 
 /-- A successful call through the gateway clears the failure count (any state, any call). -/
 theorem success_resets (cfg : Cfg) (s : St) (c : CallIn)
     (h : (call cfg s c).2.result = .respGw) : (call cfg s c).1.cnt = 0 := by
-  rcases call_cases cfg s c with ⟨_, e⟩ | ⟨_, x, e⟩ | ⟨_, x, e⟩ | ⟨_, x, e⟩ <;> rw [e] at h ⊢
+  rcases call_cases cfg s c with ⟨_, e⟩ | ⟨_, x, e⟩ | ⟨_, x, e⟩ <;> rw [e] at h ⊢
   · exact absurd h (directResult_ne_respGw c)
-  · simp at h
   · exact absurd h (directResult_ne_respGw c)
   · unfold gwLeg at h ⊢
     cases hg : c.gw <;> simp only [hg] at h ⊢ <;>
@@ -164,9 +150,8 @@ theorem foreign_errors_propagate (cfg : Cfg) (s : St) (c : CallIn)
     (call cfg s c).2 = ⟨[.gw], .raiseGwApp⟩ ∧ (call cfg s c).1.cnt = s.cnt ∧
     (call cfg s c).1.ok = (stateOk cfg s).ok ∧ (call cfg s c).1.start = s.start := by
   obtain ⟨hc, hst, _⟩ := stateOk_fields cfg s
-  rcases call_cases cfg s c with ⟨_, e⟩ | ⟨_, x, e⟩ | ⟨_, x, e⟩ | ⟨_, x, e⟩ <;> rw [e] at hs ⊢
+  rcases call_cases cfg s c with ⟨_, e⟩ | ⟨_, x, e⟩ | ⟨_, x, e⟩ <;> rw [e] at hs ⊢
   · simp [directLeg] at hs
-  · simp at hs
   · simp [directLeg] at hs
   · unfold gwLeg
     rw [hg]
@@ -174,32 +159,25 @@ theorem foreign_errors_propagate (cfg : Cfg) (s : St) (c : CallIn)
 
 /-- Nothing is swallowed, whatever the state: if the provider was contacted the application gets
     the provider's answer or exception; an application exception on the gateway leg reaches the
-    application; and if no leg was contacted the application got the decision's exception. -/
+    application. -/
 theorem never_swallow (cfg : Cfg) (s : St) (c : CallIn) :
     ((call cfg s c).2.sent.contains .direct = true → (call cfg s c).2.result = directResult c) ∧
     ((call cfg s c).2.sent.contains .gw = true → c.gw = .appExc →
-        (call cfg s c).2.result = .raiseGwApp) ∧
-    ((call cfg s c).2.sent = [] → ∃ e, (call cfg s c).2.result = .raiseDec e) := by
-  rcases call_cases cfg s c with ⟨_, e⟩ | ⟨_, x, e⟩ | ⟨_, x, e⟩ | ⟨_, x, e⟩ <;> rw [e]
+        (call cfg s c).2.result = .raiseGwApp) := by
+  rcases call_cases cfg s c with ⟨_, e⟩ | ⟨_, x, e⟩ | ⟨_, x, e⟩ <;> rw [e]
   · simp [directLeg]
-  · simp
   · simp [directLeg]
   · unfold gwLeg
     cases hg : c.gw <;> simp [directLeg]
 
-/-- On every run, every event either satisfies `noSwallow` (the application receives the answer or
-    exception of the last leg contacted, a gateway-side failure falls through to the provider) or
-    is the F19a event (no leg contacted, the decision's exception raised). -/
+/-- On every run, every event satisfies `noSwallow`: the application receives the answer or
+    exception of the last leg contacted, a gateway-side failure falls through to the provider, an
+    application exception does not, and some leg is contacted. -/
 theorem never_swallow_run (cfg : Cfg) (hw : cfg.wf = true) (t0 : Nat) (is : List Input)
-    (o : Obs) (ho : o ∈ run cfg (St.init t0) is) :
-    noSwallow o = true ∨ (o.out.sent = [] ∧ decisionRaises cfg o.inp.host o.inp.hdr = true) := by
-  obtain ⟨r, hr⟩ := holdsModuloFrom_mem cfg _ _ (c19_holds_modulo_F19a cfg hw t0 is) o ho
-  simp only [Bool.or_eq_true] at hr
-  rcases hr with hr | hr
-  · left; simp only [eventOk, Bool.and_eq_true] at hr; exact hr.1.1.1
-  · right
-    simp only [excused, Bool.and_eq_true, List.isEmpty_iff] at hr
-    exact ⟨hr.1.2, hr.1.1.2⟩
+    (o : Obs) (ho : o ∈ run cfg (St.init t0) is) : noSwallow o = true := by
+  obtain ⟨r, hr⟩ := holdsFrom_mem cfg _ _ (c19_holds cfg hw t0 is) o ho
+  simp only [eventOk, Bool.and_eq_true] at hr
+  exact hr.1.1.1
 
 /-! ## The traffic filter -/
 
@@ -233,15 +211,10 @@ theorem lists_respected (cfg : Cfg) (hw : cfg.wf = true) (t0 : Nat) (is : List I
       (∀ l, parseList cfg.allow = some l → o.inp.host ∈ l) ∧
       (parseList cfg.allow = none →
         o.inp.host ∉ blockEntries cfg ∧ ∃ ip, destAddr cfg o.inp.host = some ip ∧ isPrivate ip = false)) := by
-  obtain ⟨r, hr⟩ := holdsModuloFrom_mem cfg _ _ (c19_holds_modulo_F19a cfg hw t0 is) o ho
-  simp only [Bool.or_eq_true] at hr
+  obtain ⟨r, hr⟩ := holdsFrom_mem cfg _ _ (c19_holds cfg hw t0 is) o ho
   have hsr : shouldRoute cfg o.inp.host o.inp.hdr = true := by
-    rcases hr with hr | hr
-    · simp only [eventOk, filterRespected, hgw, Bool.and_eq_true, Bool.not_true, Bool.false_or] at hr
-      exact hr.1.2
-    · simp only [excused, Bool.and_eq_true, List.isEmpty_iff] at hr
-      have : o.out.sent = [] := hr.1.2
-      simp [gwTried, this] at hgw
+    simp only [eventOk, filterRespected, hgw, Bool.and_eq_true, Bool.not_true, Bool.false_or] at hr
+    exact hr.1.2
   simp only [shouldRoute, Bool.and_eq_true] at hsr
   obtain ⟨_, hsr⟩ := hsr
   cases hov : hdrOverride o.inp.hdr with
@@ -286,16 +259,14 @@ example :
       = [(100, [.gw, .direct]), (100, [.gw, .direct]), (107, [.direct]), (108, [.gw])] := by
   decide
 
-/-- `c19_holds_partial` is not vacuous: a run with trips, bypasses and a recovery, all of whose
-    destinations are outside the class of F19a, and the Spec holds of it. -/
-example : cfg21.wf = true ∧
-    (∀ c, Input.call c ∈ [fail1, fail2, .adv 7, good, .adv 1, good] → decisionRaises cfg21 c.host c.hdr = false) ∧
-    holds cfg21 (run cfg21 (St.init 100) [fail1, fail2, .adv 7, good, .adv 1, good]) = true := by
-  refine ⟨by decide, ?_, by decide⟩
-  intro c hc
-  simp only [fail1, fail2, good, List.mem_cons, Input.call.injEq, List.not_mem_nil, or_false, reduceCtorEq,
-    false_or] at hc
-  rcases hc with rfl | rfl | rfl | rfl <;> decide
+/-- `decision_total` / `unclassifiable_sent_directly`: `::1` and a name whose resolution raises
+    `UnicodeError` go to the provider, nothing is raised, the breaker state is untouched. -/
+example :
+    (call ⟨2, 1, none, none, []⟩ (St.init 0) ⟨[':', ':', '1'], .absent, .ok, .ok⟩).2
+        = ⟨[.direct], .respDirect⟩ ∧
+    (call ⟨2, 1, none, none, [(['a', '.', '.', 'b'], .unicodeErr)]⟩ (St.init 0)
+        ⟨['a', '.', '.', 'b'], .absent, .ok, .ok⟩).2 = ⟨[.direct], .respDirect⟩ := by
+  constructor <;> decide
 
 /-- `success_resets` / `foreign_errors_propagate`: one failure, an application exception on the
     gateway leg (propagated, counter stays 1), a success (counter 0), one more failure does not
